@@ -278,52 +278,50 @@ namespace igris
         template <typename... Args>
         iterator emplace(const_iterator pos, Args &&... args)
         {
-            // TODO insert optimization
             size_t _pos = pos - m_data;
 
-            reserve(m_size + 1);
+            // built first: the arguments may refer to an element of this vector
+            T value(std::forward<Args>(args)...);
+            make_gap(_pos, 1);
+            igris::move_constructor(m_data + _pos, std::move(value));
             m_size++;
 
-            iterator first = m_data + _pos;
-            iterator last = std::prev((iterator)end());
-            std::move_backward(first, last, end());
-            new (first) T(std::forward<Args>(args)...);
-
-            return first;
+            return m_data + _pos;
         }
 
         iterator insert(const_iterator pos, const T &value)
         {
-            // TODO insert optimization
             size_t _pos = pos - m_data;
 
-            reserve(m_size + 1);
+            // copied first: value may be an element of this vector
+            T copy(value);
+            make_gap(_pos, 1);
+            igris::move_constructor(m_data + _pos, std::move(copy));
             m_size++;
 
-            iterator first = m_data + _pos;
-            iterator last = std::prev((iterator)end());
-            std::move_backward(first, last, (iterator)end());
-            *first = value;
-
-            return first;
+            return m_data + _pos;
         }
 
         iterator insert(iterator pos, const_iterator first, const_iterator last)
         {
             size_t _pos = pos - m_data;
-            size_t _first = first - m_data;
-            size_t _last = last - m_data;
+            size_t sz = last - first;
 
-            size_t sz = _last - _first;
-            reserve(m_size + sz);
+            // The range is copied before anything moves: it belongs to another
+            // container (or to this one) and must not be looked at through
+            // this vector's buffer after a reallocation or a shift.
+            vector tmp;
+            tmp.reserve(sz);
+            for (const_iterator it = first; it != last; ++it)
+                tmp.push_back(*it);
+
+            make_gap(_pos, sz);
+            for (size_t i = 0; i < sz; ++i)
+                igris::move_constructor(m_data + _pos + i,
+                                        std::move(tmp.m_data[i]));
             m_size += sz;
 
-            iterator first_it = m_data + _pos;
-            iterator last_it = std::prev((iterator)end(), sz);
-            std::move_backward(first_it, last_it, (iterator)end());
-            std::copy(m_data + _first, m_data + _last, first_it);
-
-            return first_it;
+            return m_data + _pos;
         }
 
         iterator insert(int pos, const T &value)
@@ -419,6 +417,23 @@ namespace igris
         }
 
     protected:
+        // Makes room for count elements at index pos: the elements from pos on
+        // are moved count slots up (move-constructed into raw memory, the
+        // originals destroyed), so that afterwards slots [pos, pos + count) are
+        // raw memory for the caller to construct into. m_size is left alone.
+        void make_gap(size_t pos, size_t count)
+        {
+            reserve(m_size + count);
+            if (count == 0)
+                return;
+            for (size_t i = m_size; i > pos; --i)
+            {
+                igris::move_constructor(m_data + i - 1 + count,
+                                        std::move(m_data[i - 1]));
+                igris::destructor(m_data + i - 1);
+            }
+        }
+
         unsigned char changeBuffer(size_t sz)
         {
             size_t oldcapacity = m_capacity;
